@@ -187,9 +187,38 @@ func doRuns(c *Case, out *vio.Out) {
 			}
 			e["dw"] = mx.RLE(ints16(dec.Widths))
 			e["dl"] = mx.RLE(ints16(dec.LSB))
+			// the decoded value is EDITED and encoded again: the run of equal widths at the end gets one new width
+			// (other than the width in front of it), a run of length one its own new width; whatever the decoder
+			// remembered about the layout of the file must not survive the edit
+			ed := ints16(dec.Widths)
+			if m := len(ed); m > 0 {
+				j := m - 1
+				for j > 0 && ed[j-1] == ed[m-1] {
+					j--
+				}
+				if j == 0 && m > 1 {
+					j = m - 1 // all equal: only the last one changes
+				}
+				nw := (ed[m-1] + 3) % 32000
+				for i := j; i < m; i++ {
+					ed[i] = nw
+				}
+				for i := j; i < m; i++ {
+					dec.Widths[i] = funit.Int16(nw)
+				}
+			}
+			e["ew"] = mx.RLE(ed)
+			hh2, hm2 := dec.Encode()
+			if d3, err3 := hmtx.Decode(hh2, hm2); err3 == nil {
+				e["edw"] = mx.RLE(ints16(d3.Widths))
+			} else {
+				e["edw"] = []mx.Run{}
+			}
 		} else {
 			e["dw"] = []mx.Run{}
 			e["dl"] = []mx.Run{}
+			e["ew"] = []mx.Run{}
+			e["edw"] = []mx.Run{{-1, 1}}
 		}
 		out.Emit(e)
 	})
